@@ -113,22 +113,17 @@ Qed.
 (* ---- reserve / try_reclaim: post-conditions as functions of the handle (no global invariant needed) ---- *)
 Definition h_len (x : handle) : N := match x with HB _ _ l _ _ | HM _ _ l _ _ | HV _ l _ => l end.
 Definition h_cap (x : handle) : N := match x with HM _ _ _ c _ | HV _ _ c => c | HB _ _ l _ _ => l end.
-Lemma realloc_buf_cap orc k oldcap keep need s e k' c s' e' : realloc_buf orc k oldcap keep need s e = OK (k', c) s' e' -> need <= c.
-Proof.
-  unfold realloc_buf. destruct (isize_max <? need); [done|]. unfold mbind, get_st. destruct (sts s !! k) as [x|]; [|done].
-  unfold mget. destruct (s_cls x); try done.
-  - unfold mcheck. destruct (s_live x); [|done]. simpl. destruct (oldcap =? s_size x); [|done]. simpl. intros H. inversion H. lia.
-  - unfold alloc_buf, mbind, mget. destruct (N.max (or_pick orc need) need =? 0) eqn:E; simpl.
-    + intros H. inversion H. lia.
-    + destruct (isize_max <? _); [done|]. simpl. intros H. inversion H. lia.
-Qed.
-
 Ltac munfold H := unfold mbind, mret, mpanic, mub, mget, mput, emit, massert, mcheck, get_st, put_st, upd_st, get_h, put_h, del_h, new_h in H.
 Ltac mdestr H :=
   repeat (simpl in H; munfold H; match type of H with
   | context [match ?x with _ => _ end] => destruct x eqn:?; try discriminate
   | context [if ?c then _ else _] => destruct c eqn:?; try discriminate
   end).
+
+Lemma realloc_buf_cap orc k oldcap keep need s e k' c s' e' : realloc_buf orc k oldcap keep need s e = OK (k', c) s' e' -> need <= c.
+Proof.
+  unfold realloc_buf. destruct (isize_max <? need); [done|]. intros H. unfold alloc_buf in H. mdestr H; inversion H; subst; lia.
+Qed.
 
 (* reserve_inner answering `true` keeps the length and delivers the requested spare capacity *)
 Theorem reserve_inner_post orc additional allocate x s e x' s' e' :
